@@ -5,7 +5,7 @@
    for texts without super-variable / inline-if tokens and is otherwise
    searched with sanitizers, not proved (DESIGN.md C01). *)
 From Coq Require Import NArith List.
-From Qv Require Import gen.Tables_tmpl FinderModel FinderProofs TparseModel TparseSafety TparseTree TrenderModel TrenderProofs.
+From Qv Require Import gen.Tables_tmpl FinderModel FinderProofs TparseModel TparseSafety TparseTree TrenderModel TrenderProofs TparseLevels.
 Import ListNotations.
 
 (* Finder::Next never reads content_[i] with i >= length_ and its loop terminates,
@@ -101,3 +101,16 @@ Theorem c01_render_all_safe : forall (value : Type) get_key members value_text v
   render_all value get_key members value_text value_chars group_by sort_value esc eval_math eval_cond w content root <> RError e.
 Proof. exact render_all_safe. Qed.
 Print Assumptions c01_render_all_safe.
+
+(* ---- D91: the Level of a loop is its true depth and never wraps; loops that are active at the same time never share
+        a slot of the loop-item array.  [doks d l]: every loop tag lying under d open tags (loops, ifs, super variables,
+        inline ifs) has Level = d and d <= 255.  [ldists lv l]: no loop carries a Level found among the loops enclosing
+        it.  (The renderer MODEL copies items by value, so a shared slot would be a wrong item there, never an invalid
+        read: the use-after-free of D91 exists only with C++ pointer lifetimes, which is why this is stated on the tree.) ---- *)
+Theorem c01_parse_levels : forall w content l, parse_model w content = Ok l -> doks 0 l.
+Proof. exact parse_levels. Qed.
+Print Assumptions c01_parse_levels.
+
+Theorem c01_parse_levels_distinct : forall w content l, parse_model w content = Ok l -> ldists [] l.
+Proof. exact parse_levels_distinct. Qed.
+Print Assumptions c01_parse_levels_distinct.
